@@ -25,6 +25,16 @@ var VerifDir = func() string {
 	return "/verif"
 }()
 
+// OutDir is where evidence/ and replays/ are written: VerifDir, except when the check is pointed at a scratch
+// copy of the repository (VERIF_OUT, set by ./check with VERIF_REPO) - evidence under /verif only ever
+// describes runs against /repo itself.
+var OutDir = func() string {
+	if d := os.Getenv("VERIF_OUT"); d != "" {
+		return d
+	}
+	return VerifDir
+}()
+
 type Violation struct {
 	Sig    string `json:"sig"`
 	Desc   string `json:"desc"`
@@ -311,7 +321,7 @@ func (c *Ctx) violation(sig, desc string, replay json.RawMessage) {
 	_, known := c.known[sig]
 	v := Violation{Sig: sig, Desc: desc, Known: known}
 	if len(c.viol) < 50 {
-		dir := filepath.Join(VerifDir, "replays", c.Prop)
+		dir := filepath.Join(OutDir, "replays", c.Prop)
 		os.MkdirAll(dir, 0755)
 		p := filepath.Join(dir, fmt.Sprintf("%d-%d.json", c.seed, len(c.viol)))
 		doc := map[string]any{"property": c.Prop, "seed": c.seed, "tier": c.tier, "sig": sig, "desc": desc, "case": replay}
@@ -561,9 +571,9 @@ func (c *Ctx) Finish() int {
 	if c.assume == nil {
 		ev["assumptions"] = []string{}
 	}
-	os.MkdirAll(filepath.Join(VerifDir, "evidence"), 0755)
+	os.MkdirAll(filepath.Join(OutDir, "evidence"), 0755)
 	b, _ := json.MarshalIndent(ev, "", " ")
-	if err := os.WriteFile(filepath.Join(VerifDir, "evidence", c.Prop+".json"), b, 0644); err != nil {
+	if err := os.WriteFile(filepath.Join(OutDir, "evidence", c.Prop+".json"), b, 0644); err != nil {
 		fmt.Println("cannot write evidence:", err)
 		if code == 0 {
 			code = 2
